@@ -21,6 +21,8 @@
 #include <cstdlib>
 #include <csignal>
 #include <unistd.h>
+#include <sys/time.h>
+#include <cstring>
 #include <iostream>
 #include <sstream>
 #include <string>
@@ -108,6 +110,14 @@ struct Probe : public LocalNetworkAdjustmentResults::Parser {
   }
 };
 
+// termination is judged by CPU time, not wall time (a loaded machine must not look like a hang):
+// ITIMER_PROF counts the user+system CPU time of this process and raises SIGPROF when it is used up
+static void cpu_limit(int seconds) {
+  struct itimerval t;
+  std::memset(&t, 0, sizeof t);
+  t.it_value.tv_sec = seconds;
+  setitimer(ITIMER_PROF, &t, nullptr);
+}
 static void on_alarm(int) {
   static const char m[] = "O timeout\n";
   ssize_t r = write(1, m, sizeof m - 1); (void)r;
@@ -143,7 +153,7 @@ static void parse_doc(const std::string& doc, long k) {
 
 int main()
 {
-  std::signal(SIGALRM, on_alarm);
+  std::signal(SIGPROF, on_alarm);
   std::string line;
   bool is_case;
   while (vp::next(line, is_case)) {
@@ -151,9 +161,9 @@ int main()
     std::vector<std::string> t = vp::tokens(line);
     if (t.size() == 3 && t[0] == "doc") {
       std::cout.flush();
-      alarm(10);
+      cpu_limit(10);
       parse_doc(unhexs(t[1]), std::atol(t[2].c_str()));
-      alarm(0);
+      cpu_limit(0);
     } else std::cout << "bad-op\n";
     std::cout.flush();
   }
